@@ -440,7 +440,8 @@ func runParent(prop, tier string) int {
 			fmt.Printf("UNREPRODUCED property=%s signature=%s (seen in-process, not in a fresh process; not reported)\n", prop, s)
 			continue
 		}
-		if (strings.HasPrefix(s, "race-detector/") || p.Nondet) && repro > 0 {
+		// (the same for a violation that involves one of the random built-ins: it shows only for some of their draws)
+		if (strings.HasPrefix(s, "race-detector/") || p.Nondet || strings.HasSuffix(s, ".shuffle") || strings.HasSuffix(s, ".rand") || strings.Contains(s, "shuffle+") || strings.Contains(s, "+shuffle")) && repro > 0 {
 			repro = tries // a report of the race detector is believed when it shows up again at least once
 		}
 		if repro != tries {
